@@ -260,16 +260,36 @@ class C12(core.Check):
         n = (8000 if tier == 'quick' else 120000) // nshards
         for i in range(n):
             yield dict(s=rnd.getrandbits(48), main=rnd.choice(MAINS), T=rnd.randint(0, 5),
-                       pkgopt=rnd.random() < .2)
+                       pkgopt=rnd.random() < .3)
 
     def judge(self, case):
         rnd = random.Random(case['s'])
         main = case['main']
         g = G(rnd, main)
         if case['pkgopt']:
-            lang = rnd.choice(['german', 'english', 'french', 'russian'])
-            g.w('\\usepackage[%s]{babel}\n' % lang)
-            g.stack[-1] = LMAP[lang]
+            # main language = last language among the class options followed by the package options
+            # (languages may be repeated; other options are ignored)
+            names = ['german', 'english', 'french', 'russian', 'ngerman', 'american', 'italian']
+            v = rnd.randrange(4)
+            copts, popts = [], [rnd.choice(names)]
+            if v >= 1:
+                popts = [rnd.choice(names[:4]) for _ in range(rnd.randint(1, 3))]
+            if v >= 2:
+                copts = [rnd.choice(names[:4]) for _ in range(rnd.randint(1, 2))]
+                if rnd.random() < .5 and copts:
+                    popts.append(copts[0])           # repeated: listed twice with another language in between
+                if rnd.random() < .3:
+                    popts = []
+            if v == 3:
+                copts.insert(rnd.randrange(len(copts) + 1), '12pt')
+                popts.insert(rnd.randrange(len(popts) + 1), 'shorthands=off')
+            if copts:
+                g.w('\\documentclass[%s]{article}\n' % ','.join(copts))
+            g.w('\\usepackage%s{babel}\n' % ('[%s]' % ','.join(popts) if popts else ''))
+            langs = [x for x in copts + popts if x in LMAP]
+            if langs:
+                g.stack[-1] = LMAP[langs[-1]]
+            cnt_opts = 'babel_options_%d' % v
         else:
             g.w('\\usepackage{babel}\n')
         g.w('\\newcommand{\\yopt}[1][yoptd]{}\n')
@@ -285,6 +305,8 @@ class C12(core.Check):
         r, err = tex.run(src, ml=True, lang=main, modify_parms=mod)
         (t1, p1), err1 = tex.run(src, lang=main)
         cnt = {'docs': 1, 'words': len(g.words), 'probes': len(g.probes), 'T_%d' % T: 1}
+        if case['pkgopt']:
+            cnt[cnt_opts] = 1
         for k, v in g.kinds.items():
             cnt['kind_' + k] = v
         detail = dict(src=src, parts={lg: [p[0] for p in r[lg]] for lg in r}, stderr=err, main=main, T=T)
@@ -340,7 +362,7 @@ class C12(core.Check):
                     obs=dict(src=tex.short(src, 300), parts={lg: [tex.short(p[0], 80) for p in r[lg]] for lg in r}))
 
     def quotas(self, tier):
-        q = {'docs_multi': 3000, 'probes_joined': 300, 'probes_split': 300}
+        q = {'docs_multi': 3000, 'probes_joined': 300, 'probes_split': 300, 'babel_options_2': 100, 'babel_options_3': 100}
         for k in ('fl', 'ol', 'sel', 'same', 'sel_in', 'foot', 'head', 'decl', 'optend', 'ol_lines'):
             q['kind_' + k] = 200
         return q
